@@ -30,7 +30,7 @@ def run(prop, tier, seed, replay=None):
         "generator wrapper uses call_next sites only (a generator method cannot be re-entered for its value)",
     ]
     P = progs.enumerate_programs(tier, seed)
-    wrappers = progs.WRAPPERS if thorough else ["plain", "self", "closure", "defaults", "generator"]
+    wrappers = progs.WRAPPERS
     rng = random.Random(seed)
     jobs = []
     for j, p in enumerate(P):
